@@ -919,7 +919,8 @@ class Translator:
         lines = [f"{pad}let {r} ← " + call_lines[0].lstrip()] + call_lines[1:]
         lines.append(f"{pad}match {r} with")
         ret = "return v" if True else ""
-        lines.append(f"{pad}| .ret v => {self.ret_of_inner()}")
+        arm = self.ret_of_inner()
+        lines.append(f"{pad}| .ret {'_' if arm.startswith('throw') else 'v'} => {arm}")
         if state:
             lines.append(f"{pad}| .next s | .brk s => {st} := s")
         else:
@@ -927,7 +928,12 @@ class Translator:
         return lines
 
     def ret_of_inner(self):
-        return "return v" if self.ctx_stack[-1].kind == "func" else "return (.ret v)"
+        kind = self.ctx_stack[-1].kind
+        if kind == "simple-loop":
+            # the enclosing loop is translated without `return` support because no loop nested in it contains a `return`:
+            # this arm cannot be taken (it only makes the match exhaustive)
+            return 'throw (.unsupported "return from a loop that has none")'
+        return "return v" if kind == "func" else "return (.ret v)"
 
     def s_For(self, s, env, ctx, ind):
         pad = "  " * ind
